@@ -56,6 +56,10 @@ CLAIMED = {
          "Decides the structural conditions C12 rests on: for every pair of enum table functions A->(B,error)/B->(A,error) (found by type in 30+ packages) parse(serialize(a))=a on every constant and unknown values are errors; keyset<->entries conversions and Public() map every entry in a complete same-index loop with the same ID/status/primary (RAW => ID requirement 0); parsers hand keySerialization.IDRequirement() on and serializers hand key.IDRequirement() to NewKeySerialization (or insist on RAW); type URLs are the package constants on both sides; optional custom kid presence by nil test; no serializer writes a constant into a field the parser reads back. Byte-identical re-serialization and Equal semantics are not decided.",
          "Trusted: go/ssa; constant propagation over pure table functions; protobuf library.",
          "DESIGN.md §4 C12"),
+ "C06": ("accept-side rules (auth fixpoint, prefix, tiling, bounds) for HybridDecrypt; literal tables vs transcribed RFC 9180/IANA values; constant folding of hash->size and enum->string tables (digest sizes, injectivity); inter-procedural argument-flow of contextInfo to the key schedule",
+         "Decides structural clauses of C06 (NOT byte-level interoperability): plaintext only under AEAD-open/DEM-decrypt success, exact prefix, in-bounds slicing of the encapsulated key/header; KEM/KDF/AEAD ids, version label, kemLengths and suite-id composition equal RFC 9180 §7/IANA; every hash->size table gives the standard digest sizes; enum->name tables of the hybrid packages are injective; contextInfo of every Encrypt/Decrypt reaches the info_hash labeled extract (HPKE) or the HKDF info argument (ECIES).",
+         "Trusted: go/ssa; the transcribed standard tables in checker/rules/c06.go; stdlib AEAD Open.",
+         "DESIGN.md §4 C06"),
 }
 
 NOT_APPLICABLE = {
